@@ -71,6 +71,10 @@ fn main() {
             checks::c16b::debug(&args);
             std::process::exit(0);
         }
+        ("C02CDBG", _) => {
+            checks::c02c::debug(&args);
+            std::process::exit(0);
+        }
         ("C16CDBG", _) => {
             checks::c16c::debug(&args);
             std::process::exit(0);
